@@ -13,5 +13,6 @@ if s.count(old)<1: print("MUTATION-TARGET-NOT-FOUND"); sys.exit(1)
 open(f,'w').write(s.replace(old,new,1))
 PY
 if ! go vet -mod=mod ./$(dirname $F) >/dev/null 2>/tmp/mut.err; then if grep -q "^#\|cannot\|undefined\|declared and not used" /tmp/mut.err; then echo "MUTANT-DOES-NOT-COMPILE"; head -3 /tmp/mut.err; git reset -q --hard HEAD; exit 2; fi; fi
-/verif/bin/kmcheck -prop "$PROPS" -verif /tmp/kmseed-verif 2>&1 | grep -E "^(FAIL|VIOLATION|PASS)" | cut -c1-260
+mkdir -p /tmp/kmseed-verif; cp /verif/known_findings.json /tmp/kmseed-verif/
+/verif/bin/kmcheck -prop "$PROPS" -verif /tmp/kmseed-verif 2>&1 | grep -E "^(FAIL|PASS)" | cut -c1-260 | head -${MAXLINES:-10}
 git reset -q --hard HEAD
